@@ -40,7 +40,7 @@ def main():
                 continue
             open(p, "w").write(s.replace(old, new))
             t0 = time.time()
-            env = dict(os.environ, VERIF_REPO=d)
+            env = dict(os.environ, VERIF_REPO=d, VERIF_EVIDENCE_DIR=os.path.join(d, "_ev"))
             r = subprocess.run([os.path.join(HERE, "check"), pid, "--no-shrink"] + extra, env=env,
                                capture_output=True, text=True)
             clauses = [l.strip()[:110] for l in r.stdout.splitlines() if l.strip().startswith("violated clause")]
@@ -50,7 +50,5 @@ def main():
         print(*rows[-1], flush=True)
     killed = sum(1 for r in rows if r[2].startswith("exit=1"))
     print(f"\n{killed}/{len(rows)} mutants detected")
-    # evidence files were rewritten by mutant runs: restore from git
-    subprocess.run(["git", "-C", HERE, "checkout", "--", "evidence"], capture_output=True)
 
 main()
